@@ -103,7 +103,7 @@ Qed.
 
 Lemma parse_bound_show : forall n, parse_bound (show_nat n) = Ok (Some n).
 Proof.
-  intro n. unfold parse_bound.
+  intro n. unfold parse_bound. rewrite (strip_digits _ (show_nat_digits n)).
   destruct (show_nat n) as [|c s] eqn:E; [exfalso; exact (show_nat_nonempty n E)|].
   rewrite <- E. rewrite parse_int_show. reflexivity.
 Qed.
